@@ -53,7 +53,9 @@ json.dump({'instrumented_suite_pass':len(p),'instrumented_suite_fail':sorted(f)}
 print('instrumentation self-check: %d repository tests pass on the instrumented build (pass-through mode), %d fail %s' % (len(p),len(f),sorted(f)))
 "
   SELF="-selfcheck $scratch/selfcheck.json"
-  # real networks (free-running, uninstrumented build of the same tree): tcp, unix, http, ws, inproc x TLS x header
+fi
+if [ "$PROP" = "C12" ]; then
+  # real networks, both tiers (free-running, uninstrumented build of the same tree): tcp, unix, http, ws, inproc x TLS x header
   # encoders x body codecs x poll x buffer sizes; every configuration in its own subprocess
   cp /repo/go.sum $V/real/go.sum 2>/dev/null
   python3 - "$REPO" "$scratch/plain-overlay.json" <<'PY'
@@ -69,7 +71,7 @@ json.dump({"Replace":r},open(out,"w"))
 PY
   if (cd $V/real && go build -overlay $scratch/plain-overlay.json -o $scratch/mcreal . 2>$scratch/real-build.log); then
     mkdir -p $scratch/realdir
-    $scratch/mcreal run -out $scratch/real.json -dir $scratch/realdir -seed ${VERIF_SEED:-0} | tail -40
+    $scratch/mcreal run -jobs 8 -out $scratch/real.json -dir $scratch/realdir -seed ${VERIF_SEED:-0} | tail -40
     SELF="$SELF -real $scratch/real.json"
   else
     echo "WARNING real-network runner did not build"; head -5 $scratch/real-build.log
